@@ -81,6 +81,20 @@ def run_to(W, cfg):
         s.to(cfg['from'])
         W.ob('round trip grid', s.wave, W.array(w))
         W.ob('round trip values', s.value, W.array(v))
+        # samples held as integers (counts per bin from a table): the same conversion as for the same numbers held as floats
+        def ints_ok():
+            import numpy as _np
+            for gw, gv in (([500, 510, 520], [15, 25, 35]), (_np.array([3, 4, 6], dtype=_np.int32), _np.array([7, 1, 9], dtype=_np.int16))):
+                si = R.Spectrum(_np.array(gw), _np.array(gv), waveunit=cfg['from'], valueunit=cfg['valueunit'])
+                sf = R.Spectrum(_np.array(gw, dtype=float), _np.array(gv, dtype=float), waveunit=cfg['from'], valueunit=cfg['valueunit'])
+                si.to(cfg['to']); sf.to(cfg['to'])
+                if not (_np.allclose(_np.asarray(si.value, dtype=float), sf.value, rtol=1e-12, atol=0) and _np.allclose(_np.asarray(si.wave, dtype=float), sf.wave, rtol=1e-12, atol=0)):
+                    return False
+                si.to(cfg['from']); sf.to(cfg['from'])
+                if not (_np.allclose(_np.asarray(si.value, dtype=float), _np.asarray(gv, dtype=float), rtol=1e-12, atol=0) and _np.allclose(_np.asarray(si.wave, dtype=float), _np.asarray(gw, dtype=float), rtol=1e-12, atol=0)):
+                    return False
+            return True
+        W.ob_concrete('integer-typed grid and samples convert like the same numbers held as floats (and back)', ints_ok)
     else:
         s.to(cfg['flux_to'])
         W.ob_true('flux unit recorded', s.valueunit == cfg['flux_to'])
